@@ -216,6 +216,109 @@ def gen_case(rng, tier, flavour=None):
     return {"cfg": cfg, "ops": ops}
 
 
+def gen_stall_case(rng):
+    """two consumers stalled at the same time next to an always-ready one: the relay must time out
+    on each of them for every frame and still serve the ready streamer"""
+    chans = [{"k": k, "kind": "v"} for k in VIRT]
+    cfg = {"buf": rng.choice([2, 3, 8]), "timeout_ms": 1000, "out_buf": 0, "chans": chans}
+    ops = [{"op": "open_writer", "w": 1, "mode": rng.choice(["so", "ps"]), "chans": list(VIRT), "auths": [255]}]
+    if rng.random() < 0.5:
+        ops.append({"op": "open_writer", "w": 2, "mode": "so", "chans": rand_subset(rng, VIRT, 1),
+                    "auths": [rng.choice(AUTHS)]})
+    sids = [1, 2, 3]
+    for s in sids:
+        ks = list(VIRT) if rng.random() < 0.7 else rand_subset(rng, VIRT, 1)
+        ops.append({"op": "open_streamer", "s": s, "keys": ks})
+    ops.append({"op": "sync"})
+
+    def some_write():
+        w = 2 if (len([o for o in ops if o["op"] == "open_writer"]) == 2 and rng.random() < 0.3) else 1
+        pool = VIRT if w == 1 else next(o["chans"] for o in ops if o["op"] == "open_writer" and o["w"] == 2)
+        return {"op": "write", "w": w, "keys": rand_subset(rng, pool, 1)}
+    for _ in range(rng.randrange(0, 3)):
+        ops.append(some_write())
+    stalled = rng.sample(sids, 2 if rng.random() < 0.8 else 1)
+    for s in stalled:
+        ops.append({"op": "pause", "s": s})
+    # the first frames after the pause are still taken (consumer in flight, streamer's hand);
+    # from then on the relay has to time out on every stalled streamer for every frame
+    ops += [{"op": "sync"}, {"op": "write", "w": 1, "keys": list(VIRT)}, {"op": "write", "w": 1, "keys": list(VIRT)}]
+    if rng.random() < 0.4:
+        ops.append({"op": "resub", "s": rng.choice(sids), "keys": rand_subset(rng, VIRT, 0)})
+    ops.append({"op": "sync"})
+    rng.shuffle(stalled)
+    for s in stalled:
+        ops.append({"op": "resume", "s": s})
+    for _ in range(rng.randrange(1, 4)):
+        ops.append(some_write())
+    if rng.random() < 0.3:
+        ops.append({"op": "close_streamer", "s": rng.choice(sids)})
+    ops.append({"op": "sync"})
+    return {"cfg": cfg, "ops": ops}
+
+
+def rand_subset(rng, pool, lo=0):
+    k = rng.randrange(lo, len(pool) + 1)
+    return sorted(rng.sample(list(pool), k))
+
+
+def gen_indexless_case(rng):
+    """a writer that opened a data channel WITHOUT its index (it writes against index samples
+    another writer persisted), next to the index's own writer and virtual-only writers; its
+    frames sometimes carry the index key (or other foreign keys) anyway"""
+    chans = [{"k": k, "kind": "v"} for k in VIRT] + [{"k": IDX, "kind": "i"}, {"k": DATA, "kind": "d", "idx": IDX}]
+    allkeys = VIRT + [IDX, DATA]
+    cfg = {"buf": rng.choice([2, 3, 8, 1000]), "timeout_ms": 5000, "out_buf": rng.choice([0, 1, 4]), "chans": chans}
+    va = rand_subset(rng, VIRT, 0)
+    ops = [{"op": "open_writer", "w": 1, "mode": "ps", "chans": [IDX] + va, "auths": [255]}]
+    ns = 0
+    for _ in range(rng.randrange(1, 3)):
+        ns += 1
+        ops.append({"op": "open_streamer", "s": ns, "keys": list(allkeys) if rng.random() < 0.7 else rand_subset(rng, allkeys, 1)})
+    n_idx = 0
+    for _ in range(rng.randrange(2, 6)):
+        ops.append({"op": "write", "w": 1, "keys": [IDX] + rand_subset(rng, va, 0)})
+        n_idx += 1
+    if rng.random() < 0.5:
+        ops.append({"op": "sync"})
+    vb = rand_subset(rng, VIRT, 0)
+    cb = [DATA] + vb
+    ops.append({"op": "open_writer", "w": 2, "mode": rng.choice(["ps", "so", "ps"]), "chans": cb,
+                "auths": [rng.choice([255, 200, 100])] if rng.random() < 0.6 else [rng.choice(AUTHS) if k != DATA else 255 for k in cb]})
+    if rng.random() < 0.5:
+        ops.append({"op": "open_writer", "w": 3, "mode": "so", "chans": rand_subset(rng, VIRT, 1), "auths": [rng.choice(AUTHS)]})
+    n_data = 0
+    for _ in range(rng.randrange(3, 12)):
+        x = rng.random()
+        if x < 0.45 and n_data < n_idx:
+            ks = [DATA]
+            y = rng.random()
+            if y < 0.45:
+                ks = [IDX, DATA] if rng.random() < 0.5 else [DATA, IDX]      # the index it never opened
+            elif y < 0.6:
+                others = [k for k in VIRT if k not in vb]
+                if others:
+                    ks = ks + [rng.choice(others)]                            # another foreign key
+            ks = ks + rand_subset(rng, vb, 0)
+            ops.append({"op": "write", "w": 2, "keys": ks})
+            n_data += 1
+        elif x < 0.6:
+            ops.append({"op": "write", "w": 1, "keys": [IDX] + rand_subset(rng, va, 0)})
+            n_idx += 1
+        elif x < 0.7 and any(o["op"] == "open_writer" and o["w"] == 3 for o in ops):
+            w3 = next(o for o in ops if o["op"] == "open_writer" and o["w"] == 3)
+            ops.append({"op": "write", "w": 3, "keys": rand_subset(rng, w3["chans"], 1)})
+        elif x < 0.8:
+            ops.append({"op": "resub", "s": rng.randrange(1, ns + 1), "keys": rand_subset(rng, allkeys, 0)})
+        elif x < 0.9:
+            ops.append({"op": "sync"})
+        elif ns < 3:
+            ns += 1
+            ops.append({"op": "open_streamer", "s": ns, "keys": rand_subset(rng, allkeys, 1)})
+    ops.append({"op": "sync"})
+    return {"cfg": cfg, "ops": ops}
+
+
 def flood_case(buf=2):
     """known finding: writes after DB.Close fill the dead relay inlet and block"""
     ops = [{"op": "open_writer", "w": 1, "mode": "so", "chans": [1], "auths": [255]},
@@ -226,7 +329,16 @@ def flood_case(buf=2):
 
 
 def gen_cases(rng, tier, n):
-    return [gen_case(rng, tier) for _ in range(n)]
+    out = []
+    for _ in range(n):
+        x = rng.random()
+        if x < 0.04:
+            out.append(gen_stall_case(rng))
+        elif x < 0.14:
+            out.append(gen_indexless_case(rng))
+        else:
+            out.append(gen_case(rng, tier))
+    return out
 
 
 # --------------------------------------------------------------------------- printing
@@ -411,6 +523,9 @@ RULE = ("seeded sequential driver scripts of 10-34 operations (real relay / stre
         "(a goroutine issuing 2-4 Writes concurrently with the next 1-4 driver operations — writes of other writers, streamer "
         "open / re-subscribe / close, DB close — then join; ~40% of scripts), DB close (12%, "
         "followed by further writes and operations); relay capacity from {1,2,3,8,1000}, streamer outlet buffer from {0,1,4}. "
+        "Two further flavours: 4% 'double stall' scripts (three streamers, two consumers stalled at the same time next to an "
+        "always-ready one while frames are written; timeout 1 s) and 10% 'index-less writer' scripts (an index-only writer plus a "
+        "writer that opened the data channel without its index and whose frames carry the index key or other foreign keys). "
         "Non-trivial = frames of >=2 writers received, some streamer received >=3 frames, some write had keys excluded as "
         "unauthorized, and a re-subscribe / streamer close / pause / DB close took effect; distinct by hash.")
 TRUSTED = ["hook cesium/export_verif_c20.go (WithVerifStreamingConfig: relay capacity and slow-consumer timeout, otherwise unexported)",
